@@ -35,6 +35,8 @@ type guardSpec struct {
 	// caller's argument values so that Event/Classify can compare against the root function's parameters (resolve).
 	Descend bool
 	Bind    map[ssa.Value]ssa.Value
+	// AtomEvents: Event is also consulted for atom instructions (an atom whose execution matters, e.g. a hook call)
+	AtomEvents bool
 }
 
 // resolve follows parameter bindings established while descending into helpers.
@@ -103,6 +105,11 @@ func (p *Program) guardEvalDepth(fn *ssa.Function, spec guardSpec, cell map[stri
 			if name, ok := spec.Atoms(in); ok {
 				if v, isV := in.(ssa.Value); isV {
 					s.env[v] = cell[name]
+				}
+				if spec.AtomEvents {
+					if ev := spec.Event(in); ev != "" {
+						s.events = append(s.events, ev)
+					}
 				}
 				continue
 			}
